@@ -218,7 +218,8 @@ func GenValid(r *rand.Rand, profile string) *Policy {
 	if r.Intn(2) == 0 {
 		p.Endian = "be"
 	}
-	if profile == "mix" && r.Intn(12) == 0 {
+	if r.Intn(12) == 0 {
+		// the x32 table: same audit architecture as x86_64 (so the x32 guard applies), numbers with the x32 bit
 		p.Arch = "x32"
 	}
 	table := TableNames(p.Arch)
